@@ -297,7 +297,30 @@ pub fn rules_case_meta(si: &gen::SchemaInfo, text: &str, rules: &[&str], tmpdir:
     out.push(json!({"op": "validate", "src": text, "doc": enc::document(&doc), "cyclic": cyclic, "rules": rules, "impl": obs, "meta": meta}));
 }
 
+static COMPANION: std::sync::atomic::AtomicUsize = std::sync::atomic::AtomicUsize::new(0);
+
+/// every seventh enumerated document that defines fragments is also run with two companion operations around it - one before
+/// that spreads the first fragment, one after that spreads all of them - so that whatever a rule keeps per operation (visited
+/// sets, memo tables, collected usages) meets fragments an earlier operation has walked already
+fn with_companions(text: &str) -> Option<String> {
+    let n = COMPANION.fetch_add(1, std::sync::atomic::Ordering::Relaxed);
+    if n % 7 != 3 || text.contains("XCompanion") { return None; }
+    let mut names: Vec<&str> = vec![];
+    let mut rest = text;
+    while let Some(i) = rest.find("fragment ") {
+        let after = &rest[i + 9..];
+        let end = after.find(|c: char| !(c.is_alphanumeric() || c == '_')).unwrap_or(after.len());
+        let name = &after[..end];
+        if !name.is_empty() && after[end..].trim_start().starts_with("on ") && !names.contains(&name) { names.push(name); }
+        rest = &after[end..];
+    }
+    if names.is_empty() || names.len() > 8 { return None; }
+    let all: String = names.iter().map(|n| format!(" ...{}", n)).collect();
+    Some(format!("query XCompanionA {{ ...{} }} {} query XCompanionZ {{{} }}", names[0], text, all))
+}
+
 pub fn rules_case(si: &gen::SchemaInfo, text: &str, rules: &[&str], tmpdir: &str, out: &mut Out) {
+    if let Some(t) = with_companions(text) { rules_case(si, &t, rules, tmpdir, out); }
     if full_mode(si, text, tmpdir, json!({"family": "rule-enumerator"}), out) { return; }
     let doc = match gen::parse_doc(text) { Some(d) => d, None => return };
     let cyclic = is_cyclic(&doc);
